@@ -27,12 +27,15 @@ pub struct ClientFn {
     pub calls: Vec<String>,                 // self.inner.<shape>(..) (expected: 1)
     pub grpc_methods: Vec<(String, String)>, // GrpcMethod::new("..", "..") (expected: 1)
     pub sig_shape: String,                  // from the signature: IntoRequest / IntoStreamingRequest, Streaming<..>
+    pub req_streaming: bool,                // request: impl IntoStreamingRequest<Message = Req>
+    pub resp_streaming: bool,               // -> Result<Response<Streaming<Resp>>, Status>
     pub req: String,
     pub resp: String,
 }
 #[derive(Clone, Debug, Default, PartialEq)]
 pub struct ClientMod {
     pub mod_name: String,
+    pub structs: Vec<String>, // pub struct <Name>Client<T> (expected: 1)
     pub fns: Vec<ClientFn>,
     pub has_connect: bool,
 }
@@ -42,8 +45,29 @@ pub struct Arm {
     pub kinds: Vec<String>,      // impl tonic::server::<Kind>Service<Req> (expected: 1), as a shape
     pub grpc_calls: Vec<String>, // grpc.<shape>(method, req) (expected: 1)
     pub fn_names: Vec<String>,   // <T as Trait>::<fn>(..) (expected: 1)
+    pub traits: Vec<String>,     // <T as <Trait>>::fn(..) (expected: 1)
+    pub inner_by_value: Vec<bool>, // receiver argument of that call: by value (true) / by reference (false) (expected: 1)
     pub req: String,
     pub resp: String,
+    pub response_stream: Option<Resp>, // type ResponseStream = T::<X>Stream | BoxStream<Resp>
+    pub call_req_streaming: Vec<bool>, // fn call(&mut self, request: Request<Streaming<Req>>) (expected: 1)
+}
+/// what is inside tonic::Response<..>
+#[derive(Clone, Debug, PartialEq)]
+pub enum Resp {
+    Plain(String),
+    Assoc(String), // Self::<X>Stream / T::<X>Stream
+    Boxed(String), // BoxStream<Resp>
+}
+impl Default for Resp {
+    fn default() -> Self {
+        Resp::Plain(String::new())
+    }
+}
+impl Resp {
+    pub fn is_stream(&self) -> bool {
+        !matches!(self, Resp::Plain(_))
+    }
 }
 #[derive(Clone, Debug, Default, PartialEq)]
 pub struct TraitFn {
@@ -51,12 +75,20 @@ pub struct TraitFn {
     pub shape: String,
     pub req: String,
     pub resp: String, // "" when the response is an associated stream type (no default stubs)
+    pub assoc: Option<(String, String)>, // `type <X>Stream: Stream<Item = Result<Resp, Status>>` right before the fn
+    pub arc_self: Option<bool>,          // self: Arc<Self> (true) / &self (false); None: something else
+    pub req_streaming: bool,
+    pub resp_ty: Resp,
+    pub default_body: bool,
 }
 #[derive(Clone, Debug, Default, PartialEq)]
 pub struct ServerMod {
     pub mod_name: String,
+    pub traits: Vec<String>,  // pub trait <Name> (expected: 1)
+    pub structs: Vec<String>, // pub struct <Name>Server<T> (expected: 1)
     pub service_name: Option<String>,
     pub named_is_service_name: bool,
+    pub named_value: Option<String>, // NamedService::NAME resolved to a string (a literal, or SERVICE_NAME's literal)
     pub arms: Vec<Arm>,
     pub default_arms: usize,
     pub default_unimplemented: bool,
@@ -137,7 +169,7 @@ impl<'a> Visit<'a> for ClientBody {
     }
     fn visit_expr_method_call(&mut self, m: &'a syn::ExprMethodCall) {
         let name = m.method.to_string();
-        if SHAPES.contains(&name.as_str()) && toks(&m.receiver) == "self.inner" {
+        if SHAPES.contains(&name.as_str()) && m.args.len() == 3 {
             self.calls.push(name);
         }
         syn::visit::visit_expr_method_call(self, m);
@@ -186,6 +218,8 @@ fn client_fn(f: &syn::ImplItemFn) -> Option<ClientFn> {
         calls: b.calls,
         grpc_methods: b.grpc_methods,
         sig_shape: shape_of(cs, ss).to_string(),
+        req_streaming: cs,
+        resp_streaming: ss,
         req,
         resp,
     })
@@ -194,6 +228,9 @@ fn client_mod(m: &syn::ItemMod) -> Option<ClientMod> {
     let (_, items) = m.content.as_ref()?;
     let mut out = ClientMod { mod_name: m.ident.to_string(), ..Default::default() };
     for it in items {
+        if let syn::Item::Struct(st) = it {
+            out.structs.push(st.ident.to_string());
+        }
         if let syn::Item::Impl(im) = it {
             if im.trait_.is_some() {
                 continue;
@@ -219,8 +256,27 @@ struct ArmBody {
     kinds: Vec<String>,
     grpc_calls: Vec<String>,
     fn_names: Vec<String>,
+    traits: Vec<String>,
+    inner_by_value: Vec<bool>,
     req: String,
     resp: String,
+    response_stream: Option<Resp>,
+    call_req_streaming: Vec<bool>,
+}
+/// `T::<X>Stream` / `Self::<X>Stream` -> Assoc(X Stream), `BoxStream<R>` -> Boxed(R), else Plain
+fn resp_of(t: &syn::Type) -> Resp {
+    if let syn::Type::Path(tp) = t {
+        if tp.qself.is_none() && tp.path.segments.len() == 2 {
+            let first = tp.path.segments[0].ident.to_string();
+            if first == "T" || first == "Self" {
+                return Resp::Assoc(tp.path.segments[1].ident.to_string());
+            }
+        }
+    }
+    if last_ident(t) == "BoxStream" {
+        return Resp::Boxed(first_type_arg(t).map(|t| toks(&t)).unwrap_or_default());
+    }
+    Resp::Plain(toks(t))
 }
 impl<'a> Visit<'a> for ArmBody {
     fn visit_item_impl(&mut self, im: &'a syn::ItemImpl) {
@@ -245,6 +301,18 @@ impl<'a> Visit<'a> for ArmBody {
                             if ty.ident == "Response" {
                                 self.resp = toks(&ty.ty);
                             }
+                            if ty.ident == "ResponseStream" {
+                                self.response_stream = Some(resp_of(&ty.ty));
+                            }
+                        }
+                        if let syn::ImplItem::Fn(f) = ii {
+                            if f.sig.ident == "call" {
+                                // request: tonic::Request<Req> / tonic::Request<tonic::Streaming<Req>>
+                                if let Some(syn::FnArg::Typed(pt)) = f.sig.inputs.iter().nth(1) {
+                                    let inner = first_type_arg(&pt.ty);
+                                    self.call_req_streaming.push(inner.map(|t| last_ident(&t) == "Streaming").unwrap_or(false));
+                                }
+                            }
                         }
                     }
                 }
@@ -258,13 +326,22 @@ impl<'a> Visit<'a> for ArmBody {
                 if let Some(seg) = p.path.segments.last() {
                     self.fn_names.push(seg.ident.to_string());
                 }
+                // <T as a::Trait>::f : the trait is the segment before the last one
+                let n = p.path.segments.len();
+                if n >= 2 {
+                    self.traits.push(p.path.segments[n - 2].ident.to_string());
+                }
+                // the receiver argument: passed by value (Arc<T>) or by reference (&T), whatever it is called
+                if let Some(a0) = c.args.first() {
+                    self.inner_by_value.push(!matches!(a0, syn::Expr::Reference(_)));
+                }
             }
         }
         syn::visit::visit_expr_call(self, c);
     }
     fn visit_expr_method_call(&mut self, m: &'a syn::ExprMethodCall) {
         let name = m.method.to_string();
-        if SHAPES.contains(&name.as_str()) && toks(&m.receiver) == "grpc" {
+        if SHAPES.contains(&name.as_str()) && m.args.len() == 2 {
             self.grpc_calls.push(name);
         }
         syn::visit::visit_expr_method_call(self, m);
@@ -275,7 +352,7 @@ struct FindMatch<'a> {
 }
 impl<'a> Visit<'a> for FindMatch<'a> {
     fn visit_expr_match(&mut self, m: &'a syn::ExprMatch) {
-        if toks(&m.expr) == "req.uri().path()" {
+        if toks(&m.expr).ends_with(".uri().path()") {
             self.found.push(m);
         }
         syn::visit::visit_expr_match(self, m);
@@ -289,8 +366,31 @@ fn server_mod(m: &syn::ItemMod) -> Option<ServerMod> {
             syn::Item::Const(c) if c.ident == "SERVICE_NAME" => {
                 out.service_name = lit_str(&c.expr);
             }
+            syn::Item::Struct(st) => out.structs.push(st.ident.to_string()),
             syn::Item::Trait(t) => {
+                out.traits.push(t.ident.to_string());
+                let mut pending: Option<(String, String)> = None;
                 for ti in &t.items {
+                    if let syn::TraitItem::Type(ty) = ti {
+                        // type <X>Stream: Stream<Item = Result<Resp, Status>> + Send + 'static
+                        let mut item = String::new();
+                        for bnd in &ty.bounds {
+                            if let syn::TypeParamBound::Trait(tb) = bnd {
+                                if let Some(seg) = tb.path.segments.last() {
+                                    if let syn::PathArguments::AngleBracketed(ab) = &seg.arguments {
+                                        for a in &ab.args {
+                                            if let syn::GenericArgument::AssocType(at) = a {
+                                                if at.ident == "Item" {
+                                                    item = first_type_arg(&at.ty).map(|t| toks(&t)).unwrap_or_default();
+                                                }
+                                            }
+                                        }
+                                    }
+                                }
+                            }
+                        }
+                        pending = Some((ty.ident.to_string(), item));
+                    }
                     if let syn::TraitItem::Fn(f) = ti {
                         let mut cs = false;
                         let mut req = String::new();
@@ -306,8 +406,10 @@ fn server_mod(m: &syn::ItemMod) -> Option<ServerMod> {
                         }
                         let mut ss = false;
                         let mut resp = String::new();
+                        let mut resp_ty = Resp::default();
                         if let Some(inner) = result_response_inner(&f.sig.output) {
                             let s = toks(&inner);
+                            resp_ty = resp_of(&inner);
                             if s.starts_with("Self::") {
                                 ss = true;
                             } else if last_ident(&inner) == "BoxStream" {
@@ -317,7 +419,25 @@ fn server_mod(m: &syn::ItemMod) -> Option<ServerMod> {
                                 resp = s;
                             }
                         }
-                        out.trait_fns.push(TraitFn { name: f.sig.ident.to_string(), shape: shape_of(cs, ss).to_string(), req, resp });
+                        let arc_self = match f.sig.inputs.first() {
+                            Some(syn::FnArg::Receiver(r)) => match (r.colon_token.is_some(), r.reference.is_some(), r.mutability.is_some()) {
+                                (false, true, false) => Some(false),
+                                (true, false, false) if toks(&r.ty) == "std::sync::Arc<Self>" => Some(true),
+                                _ => None,
+                            },
+                            _ => None,
+                        };
+                        out.trait_fns.push(TraitFn {
+                            name: f.sig.ident.to_string(),
+                            shape: shape_of(cs, ss).to_string(),
+                            req,
+                            resp,
+                            assoc: pending.take(),
+                            arc_self,
+                            req_streaming: cs,
+                            resp_ty,
+                            default_body: f.default.is_some(),
+                        });
                     }
                 }
             }
@@ -329,6 +449,7 @@ fn server_mod(m: &syn::ItemMod) -> Option<ServerMod> {
                             if let syn::ImplItem::Const(c) = ii {
                                 if c.ident == "NAME" {
                                     out.named_is_service_name = toks(&c.expr) == "SERVICE_NAME";
+                                    out.named_value = lit_str(&c.expr);
                                 }
                             }
                         }
@@ -348,8 +469,12 @@ fn server_mod(m: &syn::ItemMod) -> Option<ServerMod> {
                                                 kinds: b.kinds,
                                                 grpc_calls: b.grpc_calls,
                                                 fn_names: b.fn_names,
+                                                traits: b.traits,
+                                                inner_by_value: b.inner_by_value,
                                                 req: b.req,
                                                 resp: b.resp,
+                                                response_stream: b.response_stream,
+                                                call_req_streaming: b.call_req_streaming,
                                             });
                                         } else {
                                             out.non_literal_arms += 1;
@@ -375,6 +500,9 @@ fn server_mod(m: &syn::ItemMod) -> Option<ServerMod> {
             }
             _ => {}
         }
+    }
+    if out.named_is_service_name {
+        out.named_value = out.service_name.clone();
     }
     Some(out)
 }
